@@ -239,6 +239,24 @@ Example C02_hook_nonvacuous :
   end.
 Proof. vm_compute. split; reflexivity. Qed.
 
+(* byte slices ([]byte, named byte slices, byte arrays) whose bytes are related position by position:
+   %v prints them as numbers, %s / %q as text, %x as hex digits - all inside envelopes *)
+Definition c02_bytes (s : bytes) : list value := [VBytes (c02_t [91;93;117;105;110;116;56]%N) false s].
+Lemma c02_bytes_related : Forall2 arel (c02_bytes [97;98;99]%N) (c02_bytes [120;98;122]%N).
+Proof.
+  constructor; [|constructor]. apply ar_v, vr_bytes; [reflexivity | reflexivity|].
+  constructor; [right; repeat split; (reflexivity || discriminate)|].
+  constructor; [left; reflexivity|].
+  constructor; [right; repeat split; (reflexivity || discriminate) | constructor].
+Qed.
+Example C02_bytes_nonvacuous :
+  let f := [37;118;124;37;115;124;37;91;49;93;120;124;37;35;91;49;93;118]%N in
+  match sprintf 20 (mkEnv c02_orc None) f (c02_bytes [97;98;99]%N), sprintf 20 (mkEnv c02_orc None) f (c02_bytes [120;98;122]%N) with
+  | ROk o1, ROk o2 => o_bytes o1 <> o_bytes o2 /\ redact_b (o_bytes o1) = redact_b (o_bytes o2)
+  | _, _ => False
+  end.
+Proof. vm_compute. split; congruence. Qed.
+
 (* Redact() depends on the shape only: the text outside envelopes and, per envelope, whether it is
    closed and whether it is empty *)
 Theorem C02_redact_is_a_function_of_the_shape : forall x y,
